@@ -312,7 +312,7 @@ impl<'a> Printer<'a> {
 
     /// e as the base of a postfix form (call, field, index)
     fn base(&mut self, e: &Value) -> String {
-        let need = !matches!(s(e, "k"), "var" | "std" | "self" | "call" | "fld" | "idx");
+        let need = !matches!(s(e, "k"), "var" | "qvar" | "std" | "self" | "call" | "fld" | "idx");
         self.paren_if(e, need)
     }
 
@@ -444,6 +444,8 @@ impl<'a> Printer<'a> {
             "bool" => format!("{}", e["v"].as_bool().unwrap()),
             "nil" => "nil".into(),
             "var" => self.name(e["b"].as_i64().unwrap()),
+            // a global of another module by qualified name (C09): `ns.<name of binder b>`
+            "qvar" => format!("{}.{}", s(e, "ns"), self.name(e["b"].as_i64().unwrap())),
             "std" => s(e, "name").to_string(),
             "self" => "self".into(),
             "bin" => {
@@ -599,13 +601,22 @@ impl<'a> Printer<'a> {
             }
             "loop" => {
                 let c = &st["c"];
-                let head = if self.opts.surface.loop_do && c["k"] == "bool" && c["v"] == true {
-                    "loop do".to_string()
+                // optional field `form` (C05 function-flavour family): "nocond" = `loop do .. end` whatever the condition,
+                // "bare" = `loop <c> <statement>` without a do-block (body of exactly one statement); absent / other = plain
+                let form = st.get("form").and_then(|x| x.as_str()).unwrap_or("");
+                if form == "bare" && arr(st, "body").len() == 1 {
+                    let ctext = self.expr(c);
+                    let body = self.block_lines(arr(st, "body"), None);
+                    format!("loop {} {}", ctext, body.trim())
                 } else {
-                    format!("loop {} do", self.expr(c))
-                };
-                let body = self.block_lines(arr(st, "body"), None);
-                format!("{}\n{}{}end", head, body, self.ind_at(self.depth))
+                    let head = if form == "nocond" || (self.opts.surface.loop_do && c["k"] == "bool" && c["v"] == true) {
+                        "loop do".to_string()
+                    } else {
+                        format!("loop {} do", self.expr(c))
+                    };
+                    let body = self.block_lines(arr(st, "body"), None);
+                    format!("{}\n{}{}end", head, body, self.ind_at(self.depth))
+                }
             }
             "break" => "break".into(),
             "continue" => "continue".into(),
@@ -670,6 +681,10 @@ impl<'a> Printer<'a> {
                 }
                 text.push_str("}\n");
                 self.out.push_str(&text);
+            }
+            // `use <module>` (C09, two-file programs)
+            "use" => {
+                self.out.push_str(&format!("use {}\n", s(t, "name")));
             }
             "raw" => {
                 self.out.push_str(s(t, "text"));
